@@ -1071,6 +1071,28 @@ func c02IsBound(c *Ctx, v ssa.Value) bool {
 func c02TypEdge(c *Ctx, fi *ir.FnInfo, i *ssa.If, k int) int {
 	tcp, unix := c.pkgConstInt("nbio", "ConnTypeTCP"), c.pkgConstInt("nbio", "ConnTypeUnix")
 	cnd, truth := ir.StripNot(i.Cond, k == 0)
+	if ph, isPhi := cnd.(*ssa.Phi); isPhi {
+		// a boolean computed from type tests before it is branched on (isStream := a || b)
+		set, ok := c02PhiTypes(c, fi, ph, truth)
+		if !ok {
+			return 0
+		}
+		stream, other := 0, 0
+		for v := range set {
+			if v == tcp || v == unix {
+				stream++
+			} else {
+				other++
+			}
+		}
+		switch {
+		case stream == 0:
+			return -1
+		case other == 0:
+			return +1
+		}
+		return 0
+	}
 	cmp, ok := ir.DecodeIntCmp(cnd)
 	if !ok || c.P.LoadedField(cmp.Expr) != "nbio.Conn.typ" {
 		return 0
@@ -1108,3 +1130,53 @@ func c02TypEdge(c *Ctx, fi *ir.FnInfo, i *ssa.If, k int) int {
 
 func c02NonStreamEdge(c *Ctx, fi *ir.FnInfo, i *ssa.If, k int) bool { return c02TypEdge(c, fi, i, k) < 0 }
 func c02StreamEdge(c *Ctx, fi *ir.FnInfo, i *ssa.If, k int) bool    { return c02TypEdge(c, fi, i, k) > 0 }
+
+// c02PhiTypes computes the connection types for which a boolean phi built from
+// tests of Conn.typ has the given truth value (domain: the declared ConnType values).
+func c02PhiTypes(c *Ctx, fi *ir.FnInfo, ph *ssa.Phi, want bool) (map[int64]bool, bool) {
+	var domain []int64
+	for v := int64(0); v <= 8; v++ {
+		domain = append(domain, v)
+	}
+	out := map[int64]bool{}
+	for j, e := range ph.Edges {
+		pred := ph.Block().Preds[j]
+		possible := map[int64]bool{}
+		for _, v := range domain {
+			possible[v] = true
+		}
+		restrict := func(cmp ir.IntCmp, truth bool) {
+			for v := range possible {
+				if cmp.Holds(v) != truth {
+					delete(possible, v)
+				}
+			}
+		}
+		for _, ft := range fi.FactsOnEdge(pred, ph.Block()) {
+			if c2, ok := ir.DecodeIntCmp(ft.Cond); ok && c.P.LoadedField(c2.Expr) == "nbio.Conn.typ" {
+				restrict(c2, ft.Truth)
+			}
+		}
+		switch x := e.(type) {
+		case *ssa.Const:
+			b, ok := ir.ConstBool(x)
+			if !ok {
+				return nil, false
+			}
+			if b != want {
+				continue
+			}
+		default:
+			cnd, truth := ir.StripNot(e, want)
+			c2, ok := ir.DecodeIntCmp(cnd)
+			if !ok || c.P.LoadedField(c2.Expr) != "nbio.Conn.typ" {
+				return nil, false
+			}
+			restrict(c2, truth)
+		}
+		for v := range possible {
+			out[v] = true
+		}
+	}
+	return out, true
+}
